@@ -15,6 +15,9 @@ var targetFile = map[string]string{
 	"ChecksumSize":       "GenFrame",
 	"poolIndex":          "GenFrame",
 	"relayRoute":         "GenFrame",
+	// C08
+	"validateRelayMaxTimeout": "GenRelayFwd",
+	"lazyTTL":                 "GenRelayFwd",
 }
 
 // varFields: constant fields of package-level composite-literal variables.
@@ -83,4 +86,9 @@ var targets = []Target{
 			"shouldRelease, err := c.relay.Relay(frame)":                                       "",
 			"if err != nil {...": "",
 		}},
+	// C08 -- relay.go / relay_messages.go: the relay's ttl arithmetic
+	{Func: "validateRelayMaxTimeout", Out: "validateRelayMaxTimeout", Params: "(d : Z)", Ret: "Z",
+		SHints: map[string]string{"logger.WithFields(...": ""}},
+	{Func: "lazyCallReq.TTL", Out: "lazyTTL", Params: "(ttl_ms : Z)", Ret: "Z",
+		SHints: map[string]string{"ttl := binary.BigEndian.Uint32(f.Payload[_ttlIndex : _ttlIndex+_ttlLen])": "let ttl := ttl_ms in"}},
 }
